@@ -5,6 +5,15 @@ HOOK_COMMITS = ["80fcbe6"]
 TODO = "check not built yet in this round; design in DESIGN.md section 5 (to be claimed when the TLA+ module and harness exist)"
 
 CLAIMS = {
+    "C02": {
+        "text": "TLA+ contract of pipeline flow execution and spec validation (specs/PipelineFlow_Contract.tla) plus an implementation-shaped model of Spec.Validate/ValidateJumpIf, reload, "
+                "HandleWithBeforeAfter and the doHandle loop (specs/PipelineFlow.tla); TLC checks the refinement and the property's clauses for all flows up to a bound x all result vectors; every "
+                "terminal state is exported and replayed on real Pipeline objects built through supervisor.NewSpec (Handle and HandleWithBeforeAfter) and on real GlobalFilter objects; TLC-simulated "
+                "longer flows are replayed too; seeded random larger configurations run on the real code are validated by TLC against the contract.",
+        "note": "test-only scripted filter kinds; node alias observed through the pipeline stats tag, namespace through the request the filter sees; an aliased END node may or may not be a jump target "
+                "(both readings admitted); no alias equals END; GlobalFilter sides given with an explicit flow",
+        "technique": "TLA+ spec + TLC model checking (refinement of a declarative contract by an implementation-shaped layer); exhaustive model-based test generation (TLC -dump) and sampling (-simulate) replayed on the real code; TLC trace validation",
+    },
     "C13": {
         "text": "TLA+ grammar of the configuration space (ConfigSpaceGrammar: per kind, records over value classes plus the validation rules the repository states) and life-cycle automaton "
                 "Validate->{rejected,accepted}->Create->Init->Handle*->Inherit->Handle*->Close with a panic possible at every call (ConfigSpace), model-checked (contract: NoPanicAfterAccept, "
